@@ -366,10 +366,23 @@ int main(int argc, char** argv)
 		}
 		int budget	  = (int)g.logu(2e3, 2e4);
 		unsigned long seed = (unsigned long)g.range(1, 1000000000);
-		ChildResult r = run_child([&]() {
+		// the same block of calls is made twice: in a process without history, and after calls of the front ends over another box
+		// (every method, both dimensions): the values must be the same bit for bit and every evaluation inside the box of ITS call
+		std::string valbits[2];
+		ChildResult r;
+		for(int warmed = 0; warmed < 2; warmed++)
+		{
+		r = run_child([&]() {
 			long nwrong = 0, nev = 0;
 			auto inr = [&](int j, double v) { return v >= lo[j] && v <= hi[j]; };
 			std::vector<double> vals;
+			if(warmed)
+				for(int w = 0; w < 3; w++)
+				{
+					verif_mc_seed = seed + 7ul * (unsigned long)w;
+					Integrate_2D([&](double x, double y) { return x + y; }, 50.0, 51.0 + w, 60.0, 62.0, M[w], 2000);
+					Integrate_3D([&](double x, double y, double z) { return x + y + z; }, 50.0, 51.0 + w, 60.0, 62.0, 70.0, 70.5, M[w], 2000);
+				}
 			for(int rep = 0; rep < R; rep++)
 			{
 				verif_mc_seed = seed + 104729ul * (unsigned long)rep;
@@ -390,13 +403,23 @@ int main(int argc, char** argv)
 			for(double x : vals)
 				s2 += (x - m) * (x - m);
 			long double se = sqrtl(s2 / (R - 1.0L) / R);
-			json ev = {{"e", "Front"}, {"method", method}, {"dim", dim}, {"budget", budget}, {"nwrong", nwrong}, {"neval", nev}, {"zq", quant((double)(m - ex), (double)se + 16 * EPS * (double)fabsl(ex))}};
+			std::string vb;
+			for(double x : vals)
+				vb += hexbits(x);
+			json ev = {{"e", "Front"}, {"method", method}, {"dim", dim}, {"budget", budget}, {"nwrong", nwrong}, {"neval", nev}, {"zq", quant((double)(m - ex), (double)se + 16 * EPS * (double)fabsl(ex))},
+					   {"warmed", warmed}, {"vb", vb}};
 			return ev.dump();
 		}, 600);
 		if(!r.returned)
+			break;
+		valbits[warmed] = json::parse(r.result)["vb"].get<std::string>();
+		json ev			= json::parse(r.result);
+		ev.erase("vb");
+		ev["histsame"] = warmed == 0 || valbits[0] == valbits[1];
+		T.emit(ev);
+		}
+		if(!r.returned)
 			died("front " + method, r);
-		else
-			T.emit(json::parse(r.result));
 	}
 	T.flush();
 	return 0;
